@@ -412,7 +412,7 @@ def chunk_case(ctx, idx, res):
     wd = os.path.join(ctx.workdir, 'c05')
     os.makedirs(wd, exist_ok=True)
     outpath = os.path.join(wd, 'outc.bin')
-    fill = r.choice(['x', 'x', 'ab', '\u00e9', '\u20ac', '\U0001f600'])
+    fill = r.choice(['x', 'x', 'ab', '\u00e9', '\u20ac', '\U0001f600', '\U0001f600'])
     def run_len():
         n = r.choice([0, 1, 20, 98, 99, 100, 101, 102, 200, 510, 511, 512, 513, 1023, 1024, 1025, 4095, 4096, 4097, 8191, 8192, 8193, r.randint(1, 9000)])
         return (fill * (n // len(fill) + 1))[:n] if len(fill) == 1 or n % len(fill) == 0 else (fill * (n // len(fill) + 1))[:n - (n % len(fill))]
@@ -436,7 +436,9 @@ def chunk_case(ctx, idx, res):
     method = r.choice(['xml', 'xml', 'xml', 'text', 'html'])
     enc = r.choice(['UTF-8', 'UTF-8', 'UTF-16', 'ISO-8859-1'])
     parts.append('<xsl:variable name="cs" select="\'%s\'"/>' % ('c' * 300))
-    xsl = (gen_xslt.HEAD % '') + '<xsl:output method="%s" encoding="%s"/>' % (method, enc) + ''.join(parts) + '<xsl:template match="/"><out>%s</out></xsl:template></xsl:stylesheet>' % ''.join(items)
+    # zero to three units in front shift every later run against the buffer boundaries (a two-unit character then straddles one or not)
+    lead = 'y' * r.choice([0, 1, 2, 3])
+    xsl = (gen_xslt.HEAD % '') + '<xsl:output method="%s" encoding="%s"/>' % (method, enc) + ''.join(parts) + '<xsl:template match="/"><out>%s%s</out></xsl:template></xsl:stylesheet>' % (lead, ''.join(items))
     xml = '<doc><a/><b/><c><d/></c></doc>'
     t = d.call(cmd='tnew')['t'].decode()
     payload = {'stylesheet': xsl, 'document': xml}
